@@ -1,15 +1,65 @@
-From BBS Require Import Common.Sx Common.ListX Auth.Auth.
+From BBS Require Import Common.Sx Common.ListX Routing.Names Routing.NamesProofs
+  Routing.Trie Routing.TrieProofs Auth.Auth.
 
 Lemma denied_eq v : denied v = true <-> v = 7.
 Proof. unfold denied. apply Z.eqb_eq. Qed.
 
+(** ---- The prefix leaf: the trie built by the factory, asked with
+    ContainsPrefix, answers exactly "some allowed prefix is a component-wise
+    prefix of the name". ---- *)
+Lemma gval_build_aux ps : forall t q,
+  (0 <=? gval (fold_left (fun t p => set t p 0) ps t) q)
+  = existsb (fun p => name_eqb p q) ps || (0 <=? gval t q).
+Proof.
+  induction ps as [|p ps IH]; intros t q; cbn [fold_left existsb]; [reflexivity|].
+  rewrite IH, gval_set.
+  destruct (name_eqb p q); cbn [orb].
+  - rewrite orb_true_r. reflexivity.
+  - reflexivity.
+Qed.
+
+Lemma gval_empty q : gval empty_trie q = -1.
+Proof. destruct q; reflexivity. Qed.
+
+Lemma gval_build ps q :
+  (0 <=? gval (build_trie ps) q) = existsb (fun p => name_eqb p q) ps.
+Proof.
+  unfold build_trie. rewrite gval_build_aux, gval_empty. cbn. apply orb_false_r.
+Qed.
+
+Theorem contains_prefix_build ps n :
+  contains_prefix (build_trie ps) n = covered ps n.
+Proof.
+  rewrite contains_prefix_gval. unfold hasp_f, covered.
+  apply eq_iff_eq_true. rewrite !existsb_exists. split.
+  - intros (q & Hq & Hv). rewrite gval_build in Hv. apply existsb_exists in Hv.
+    destruct Hv as (p & Hp & He). apply name_eqb_eq in He. subst q.
+    exists p. split; [exact Hp|]. apply prefixes_In. exact Hq.
+  - intros (p & Hp & Hpre). exists p. split; [apply prefixes_In; exact Hpre|].
+    rewrite gval_build. apply existsb_exists. exists p. split; [exact Hp|apply name_eqb_refl].
+Qed.
+
+Theorem prefix_answer_spec ps n : prefix_answer ps n = prefix_sem ps n.
+Proof. unfold prefix_answer, prefix_sem. rewrite contains_prefix_build. reflexivity. Qed.
+
+(** [covered] is what the property text says. *)
+Theorem covered_iff ps n :
+  covered ps n = true <-> exists p r, In p ps /\ n = p ++ r.
+Proof.
+  unfold covered. rewrite existsb_exists. split.
+  - intros (p & Hp & H). apply is_prefix_iff in H. destruct H as (r & ->). exists p, r. auto.
+  - intros (p & r & Hp & ->). exists p. split; [exact Hp|apply is_prefix_app].
+Qed.
+
 Section TreeInd.
   Variable P : atree -> Prop.
   Hypothesis Hleaf : forall id tbl, P (Leaf id tbl).
+  Hypothesis Hprefix : forall ps, P (Prefix ps).
   Hypothesis Hany : forall ms, Forall P ms -> P (Any ms).
   Fixpoint atree_ind' (t : atree) : P t :=
     match t with
     | Leaf id tbl => Hleaf id tbl
+    | Prefix ps => Hprefix ps
     | Any ms =>
         Hany ms ((fix go (l : list atree) : Forall P l :=
                     match l with
@@ -18,6 +68,12 @@ Section TreeInd.
                     end) ms)
     end.
 End TreeInd.
+
+Section WithNames.
+Variable nm : nat -> list comp.
+Notation authorize := (Auth.authorize nm).
+Notation sem := (Auth.sem nm).
+Notation authorizing := (Auth.authorizing nm).
 
 Lemma merge_spec (g f : nat -> vd) names :
   merge (map g names) (map f (still_denied names (map g names)))
@@ -76,15 +132,16 @@ Qed.
 
 Theorem authorize_spec : forall t, spec_ok t.
 Proof.
-  induction t as [id tbl|ms HF] using atree_ind'; intros names.
+  induction t as [id tbl|ps|ms HF] using atree_ind'; intros names.
   - reflexivity.
+  - cbn [Auth.Auth.authorize fst Auth.sem]. apply map_ext. intros n. apply prefix_answer_spec.
   - destruct ms as [|m0 rest].
     + reflexivity.
     + inversion HF as [|m' r' Hm0 Hrest]; subst.
-      cbn [authorize]. specialize (Hm0 names).
+      cbn [Auth.authorize]. specialize (Hm0 names).
       destruct (authorize m0 names) as [errs0 log0]. cbn [fst] in Hm0. subst errs0.
       rewrite (loop_spec names rest Hrest (sem m0) log0).
-      apply map_ext. intros n. cbn [sem map first_nondenied]. reflexivity.
+      apply map_ext. intros n. cbn [Auth.sem map first_nondenied]. reflexivity.
 Qed.
 
 (** Consequences for the 'any' combinator. *)
@@ -123,7 +180,7 @@ Theorem any_granted_some_member ms n :
   exists pre m post, ms = pre ++ m :: post /\ allowed (sem m n) = true
                      /\ Forall (fun m' => sem m' n = 7) pre.
 Proof.
-  cbn [sem]. intros H. apply first_nondenied_allowed in H.
+  cbn [Auth.sem]. intros H. apply first_nondenied_allowed in H.
   destruct H as (pre & v & post & Heq & Hv & Hpre).
   apply map_eq_app in Heq. destruct Heq as (mpre & mrest & -> & Hp & Hr).
   destruct mrest as [|m mpost]; [discriminate|]. cbn [map] in Hr. inversion Hr; subst.
@@ -137,7 +194,7 @@ Theorem any_member_grants pre m post n :
   allowed (sem m n) = true -> Forall (fun m' => sem m' n = 7) pre ->
   sem (Any (pre ++ m :: post)) n = sem m n.
 Proof.
-  intros Hm Hpre. cbn [sem]. rewrite map_app. cbn [map].
+  intros Hm Hpre. cbn [Auth.sem]. rewrite map_app. cbn [map].
   apply first_nondenied_prefix.
   - clear - Hpre. induction Hpre; cbn [map]; constructor; auto.
   - unfold allowed, denied in *. apply Z.eqb_eq in Hm. rewrite Hm. reflexivity.
@@ -148,7 +205,7 @@ Theorem any_failure_reported pre m post n :
   denied (sem m n) = false -> Forall (fun m' => sem m' n = 7) pre ->
   sem (Any (pre ++ m :: post)) n = sem m n.
 Proof.
-  intros Hm Hpre. cbn [sem]. rewrite map_app. cbn [map].
+  intros Hm Hpre. cbn [Auth.sem]. rewrite map_app. cbn [map].
   apply first_nondenied_prefix; [|exact Hm].
   clear - Hpre. induction Hpre; cbn [map]; constructor; auto.
 Qed.
@@ -159,7 +216,7 @@ Theorem any_grants_if_no_failure ms n :
   (forall m, In m ms -> sem m n = 0 \/ sem m n = 7) ->
   sem (Any ms) n = 0.
 Proof.
-  intros (m & Hin & Hm) Hall. cbn [sem].
+  intros (m & Hin & Hm) Hall. cbn [Auth.sem].
   induction ms as [|a ms IH]; [contradiction|].
   cbn [map first_nondenied].
   destruct (Hall a (or_introl eq_refl)) as [H0|H7].
@@ -173,7 +230,7 @@ Qed.
 Theorem any_all_deny ms n :
   (forall m, In m ms -> sem m n = 7) -> sem (Any ms) n = 7.
 Proof.
-  intros H. cbn [sem]. apply first_nondenied_all_denied.
+  intros H. cbn [Auth.sem]. apply first_nondenied_all_denied.
   induction ms as [|a ms IH]; cbn [map]; constructor.
   - apply H; left; reflexivity.
   - apply IH. intros m Hm. apply H; right; exact Hm.
@@ -201,7 +258,7 @@ Theorem backend_only_if_all_allowed get put fm o :
   forwarded (authorizing get put fm o) = true ->
   forall n, In n (names_of o) -> sem (tree_of get put fm o) n = 0.
 Proof.
-  destruct o as [n|p c|n|ns]; cbn [authorizing names_of tree_of].
+  destruct o as [n|p c|n|ns]; cbn [Auth.authorizing names_of tree_of].
   - pose proof (authorize_spec get [n]) as Hs.
     destruct (authorize get [n]) as [vs lg]. cbn [fst] in Hs. subst vs.
     cbn. intros H m [<-|[]]. apply Z.eqb_eq. exact H.
@@ -225,7 +282,7 @@ Theorem rejected_gets_authorizer_error get put fm o :
   exists n, In n (names_of o) /\ code (authorizing get put fm o) = sem (tree_of get put fm o) n
             /\ allowed (sem (tree_of get put fm o) n) = false.
 Proof.
-  destruct o as [n|p c|n|ns]; cbn [authorizing names_of tree_of].
+  destruct o as [n|p c|n|ns]; cbn [Auth.authorizing names_of tree_of].
   - pose proof (authorize_spec get [n]) as Hs.
     destruct (authorize get [n]) as [vs lg]. cbn [fst] in Hs. subst vs.
     cbn. intros H. exists n. auto.
@@ -248,6 +305,51 @@ Theorem put_buffer_exactly_once get put fm n :
   (forwarded r = true -> buf r = BufPassedOn) /\
   (forwarded r = false -> buf r = BufDiscarded).
 Proof.
-  cbn [authorizing]. destruct (authorize put [n]) as [vs lg]. cbn.
+  cbn [Auth.authorizing]. destruct (authorize put [n]) as [vs lg]. cbn.
   destruct (allowed (hd 7 vs)); split; intros H; try reflexivity; discriminate.
 Qed.
+
+(** Trees of prefix leaves only: the verdict is a grant iff the union of the
+    allowed prefixes covers the name, else a denial (never another failure). *)
+Theorem static_sem t :
+  static_only t = true -> forall n, sem t n = prefix_sem (all_prefixes t) (nm n).
+Proof.
+  induction t as [id tbl|ps|ms HF] using atree_ind'; intros Hst n.
+  - discriminate.
+  - reflexivity.
+  - cbn [Auth.sem all_prefixes static_only] in *.
+    induction ms as [|a ms IH]; [reflexivity|].
+    inversion HF as [|a' ms' Ha Hms]; subst.
+    cbn [forallb] in Hst. apply andb_true_iff in Hst. destruct Hst as [Hsa Hsm].
+    cbn [map first_nondenied flat_map]. rewrite (Ha Hsa n), (IH Hms Hsm).
+    unfold prefix_sem, covered. rewrite existsb_app.
+    destruct (existsb (fun p => is_prefix p (nm n)) (all_prefixes a)); reflexivity.
+Qed.
+
+Theorem static_backend_iff_covered get put fm o :
+  static_only (tree_of get put fm o) = true ->
+  forwarded (authorizing get put fm o) =
+  forallb (fun n => covered (all_prefixes (tree_of get put fm o)) (nm n)) (names_of o).
+Proof.
+  intros Hst. apply eq_iff_eq_true. rewrite forallb_forall. split.
+  - intros Hf n Hn. pose proof (backend_only_if_all_allowed get put fm o Hf n Hn) as H.
+    rewrite (static_sem _ Hst) in H. unfold prefix_sem in H.
+    destruct (covered _ _); [reflexivity|discriminate].
+  - intros Hall. destruct (forwarded (authorizing get put fm o)) eqn:Hf; [reflexivity|].
+    destruct (rejected_gets_authorizer_error get put fm o Hf) as (n & Hn & _ & Hna).
+    rewrite (static_sem _ Hst) in Hna. unfold prefix_sem in Hna.
+    rewrite (Hall n Hn) in Hna. discriminate.
+Qed.
+
+Theorem static_rejection_is_permission_denied get put fm o :
+  static_only (tree_of get put fm o) = true ->
+  forwarded (authorizing get put fm o) = false ->
+  code (authorizing get put fm o) = 7.
+Proof.
+  intros Hst Hf.
+  destruct (rejected_gets_authorizer_error get put fm o Hf) as (n & Hn & Hc & Hna).
+  rewrite Hc. rewrite (static_sem _ Hst) in *. unfold prefix_sem in *.
+  destruct (covered _ _); [discriminate|reflexivity].
+Qed.
+
+End WithNames.
